@@ -66,13 +66,12 @@ pub fn proxy_handler(
 
     // Return error 403 if the address was blacklisted, whether it is the origin claimed by
     // `X-Forwarded-For`, one of the proxies on the way or the peer itself (the last proxy)
-    let blacklist = &state.config.blacklist.list;
-    if blacklist.contains(&request.address.origin_addr)
+    if state.is_blacklisted(&request.address.origin_addr)
         || request
             .address
             .proxies
             .iter()
-            .any(|proxy| blacklist.contains(proxy))
+            .any(|proxy| state.is_blacklisted(proxy))
     {
         state.logger.warn(format!(
             "{}: Blacklisted IP attempted to request {}",
